@@ -34,4 +34,35 @@ pub uninterp spec fn ffi_as_int(x: CXEvalResult) -> c_int;
 #[verifier::external_body] pub fn clang_EvalResult_getAsLongLong(x: CXEvalResult) -> (r: c_longlong) ensures r == ffi_as_longlong(x) { unimplemented!() }
 #[verifier::external_body] pub fn clang_EvalResult_getAsInt(x: CXEvalResult) -> (r: c_int) ensures r == ffi_as_int(x) { unimplemented!() }
 
+// ---- enum constant values (clang::Cursor::enum_val_*): two more libclang getters
+pub type CXCursorKind = u32;
+pub const CXCursor_EnumConstantDecl: CXCursorKind = 7;
+#[derive(Clone, Copy)]
+pub struct CXCursor(pub usize);
+pub struct Cursor { pub x: CXCursor }
+pub uninterp spec fn ffi_cursor_kind(x: CXCursor) -> CXCursorKind;
+pub uninterp spec fn ffi_enum_value(x: CXCursor) -> c_longlong;
+pub uninterp spec fn ffi_enum_value_unsigned(x: CXCursor) -> c_ulonglong;
+impl Cursor {
+    #[verifier::external_body] pub fn kind(&self) -> (r: CXCursorKind) ensures r == ffi_cursor_kind(self.x) { unimplemented!() }
+}
+#[verifier::external_body] pub fn clang_getEnumConstantDeclValue(x: CXCursor) -> (r: c_longlong) ensures r == ffi_enum_value(x) { unimplemented!() }
+#[verifier::external_body] pub fn clang_getEnumConstantDeclUnsignedValue(x: CXCursor) -> (r: c_ulonglong) ensures r == ffi_enum_value_unsigned(x) { unimplemented!() }
+
+// ---- the integer-literal arm of Var::codegen
+#[verifier::external_body] pub struct Tok { _p: core::marker::PhantomData<()> }
+pub uninterp spec fn lit_value(t: Tok) -> int;      // the mathematical value the literal token denotes
+pub mod helpers { pub mod ast_ty {
+    use super::super::*;
+    #[verifier::external_body] pub fn int_expr(v: i64) -> (r: Tok) ensures lit_value(r) == v as int { unimplemented!() }
+    #[verifier::external_body] pub fn uint_expr(v: u64) -> (r: Tok) ensures lit_value(r) == v as int { unimplemented!() }
+} }
+#[verifier::external_body] pub struct BindgenContext { _p: core::marker::PhantomData<()> }
+#[derive(Clone, Copy)] pub struct TypeId(pub usize);
+pub struct IntKindInfo { pub signed: bool }
+impl IntKindInfo { pub fn is_signed(&self) -> (r: bool) ensures r == self.signed { self.signed } }
+// var_ty.into_resolver().through_type_aliases().through_type_refs().resolve(ctx).expect_type().as_integer().unwrap()
+pub uninterp spec fn s_int_kind_of(ty: TypeId, ctx: &BindgenContext) -> IntKindInfo;
+#[verifier::external_body] pub fn resolved_int_kind(ty: TypeId, ctx: &BindgenContext) -> (r: IntKindInfo) ensures r == s_int_kind_of(ty, ctx) { unimplemented!() }
+
 } // verus!
